@@ -51,7 +51,11 @@ MC_QUICK = [("MC_Quic_flow.cfg", True, None), ("MC_Quic_close.cfg", True, None),
             ("MC_Quic_hs.cfg", True, None), ("MC_Quic_live_close.cfg", False, None),
             # deviation scenarios: everything holds modulo the named deviation (tolerant invariants and
             # deadlock check) while the strict HangFree must be violated (control) - one run with -continue
-            ("MC_Quic_dev0rtt.cfg", True, "HangFree"), ("MC_Quic_devdrop.cfg", True, "HangFree")]
+            ("MC_Quic_dev0rtt.cfg", True, "HangFree"), ("MC_Quic_devdrop.cfg", True, "HangFree"),
+            # controls for two realistic breaking changes: the model has to FAIL when finish() does not
+            # wake the driver (the FIN of a quiet connection is never transmitted: hang = deadlock) and
+            # when DatagramReceived wakes one parked reader instead of all (lost wake-up)
+            ("MC_Quic_ctl_finnowake.cfg", True, "CTL:Deadlock"), ("MC_Quic_ctl_dgwakeone.cfg", False, "CTL:NoLostWakeup")]
 MC_THOROUGH = MC_QUICK + [("MC_Quic_conc.cfg", True, None), ("MC_Quic_live_flow.cfg", False, None),
                           ("MC_Quic_live_flow_thorough.cfg", False, None),
                           ("MC_Quic_live_close_thorough.cfg", False, None)]
@@ -60,7 +64,7 @@ EXPECTED_ACTIONS = """PollOpenStream ExecutePollWrite FinishStream ResetStream P
 StopStream TrySendDatagram PollRecvDatagram PollConnecting PollHandshakeData PollAccepted0rtt PollClosed DropClosed
 PollIncoming Close EndpointClose DriverCloseEvent DriverConnectionLost DriverDrained DriverHandshakeDataReady
 DriverConnected DriverStreamFrame DriverResetStream DriverMaxStreamData DriverMaxData DriverFinished DriverStopped
-DriverMaxStreams DriverDatagramSent DriverDatagramReceived DatagramLost Terminated""".split()
+DriverMaxStreams DriverDatagramSent DriverDatagramReceived DriverTransmit DatagramLost Terminated""".split()
 _RE_COV = re.compile(r"^<(\w+) line \d+, col \d+ to line \d+, col \d+ of module Quic(?: \([\d ]+\))?>: (\d+):(\d+)", re.M)
 
 
@@ -223,6 +227,7 @@ def programs_submit(ex, tier):
 def programs(jobs, tier, tmp):
     """Programs from behaviours of the model (seeded simulation), de-duplicated."""
     want = 100 if tier == "quick" else 2000
+    quiet_cap, nquiet = (6 if tier == "quick" else 40), [0]
     progs, seen = [], set()
     for cfg, fut, out in jobs:
         g = fut.result()
@@ -236,8 +241,18 @@ def programs(jobs, tier, tmp):
                 continue
             for o in out:
                 for st in o["streams"]:
-                    if not st["chunks"] and st["end"] == "fin":
+                    if not st["chunks"] and st["end"] in ("fin", "quietfin"):
                         st["chunks"] = [0]
+                    if st["end"] == "quietfin" and (st["pace"] == "stop" or o["close"] != "none"):
+                        st["end"] = "fin"
+                # a quiet finish costs more than a second of silence: only in a bounded number of programs
+                if any(st["end"] == "quietfin" for st in o["streams"]):
+                    if nquiet[0] >= quiet_cap:
+                        for st in o["streams"]:
+                            if st["end"] == "quietfin":
+                                st["end"] = "fin"
+                    elif json.dumps(o, sort_keys=True) not in seen:
+                        nquiet[0] += 1
                 key = json.dumps(o, sort_keys=True)
                 if key in seen or n >= quota:
                     continue
@@ -300,18 +315,27 @@ def run(run, tier, replay):
         # ---- 1. model checking, generation and the harness build side by side ---------------
         mcs = MC_QUICK if tier == "quick" else MC_THOROUGH
         # configurations whose actions are a subset of another one's run without coverage statistics
-        nocov = ("live", "dev0rtt")
+        nocov = ("live", "dev0rtt", "ctl")
         with cf.ThreadPoolExecutor(max_workers=JOBS + 1) as ex:
             build = ex.submit(vlib.cargo_build, "hquic", ["record_quic"])
             jobs = [(cfg, exp, ex.submit(_tlc_job, "Quic", cfg, dl, timeout=1700,
                                          coverage=not any(x in cfg for x in nocov),
-                                         extra=["-continue"] if exp else None)) for cfg, dl, exp in mcs]
+                                         extra=["-continue"] if exp and not exp.startswith("CTL:") else None))
+                    for cfg, dl, exp in mcs]
             wjobs = wakers_submit(ex, tier)
             pjobs = programs_submit(ex, tier)
             fired = {}
             for cfg, exp, fut in jobs:
                 r = fut.result()
                 name = "Quic/" + cfg
+                if exp and exp.startswith("CTL:"):
+                    want = exp[4:]
+                    got = "Deadlock" if (r.error and "Deadlock" in r.error) or "Deadlock reached" in r.out else r.violated
+                    if got != want:
+                        raise vlib.ToolError("%s: control run expected %s, got %s (error %s)\n%s" %
+                                             (name, want, got, r.error, r.out[-1500:]))
+                    run.note("control_" + cfg.replace("MC_Quic_ctl_", "").replace(".cfg", ""), "fails with " + want)
+                    continue
                 if exp:
                     # control: the strict property must fail where the deviation scenario exists, and
                     # nothing else may (TLC ran with -continue over the whole state space)
@@ -372,11 +396,13 @@ def run(run, tier, replay):
             raise vlib.ToolError("programs: %d of %d ran" % (s["cases"], len(progs)))
         drift += classify(run, s, d, "programs", "programs")
         run.add_traces(s["cases"])
-        for k in ("trace_events", "blocked_writes", "blocked_opens", "blocked_dgram_sends", "bytes_read", "dgrams_sent", "dgrams_recv",
+        for k in ("trace_events", "blocked_writes", "blocked_opens", "blocked_dgram_sends", "quiet_finishes",
+                  "burst_readers_completed", "bytes_read", "dgrams_sent", "dgrams_recv",
                   "programs_closed", "errors_after_close"):
             run.note(k, s.get(k))
         run.note("programs", len(progs))
-        need = ("blocked_writes", "blocked_opens", "blocked_dgram_sends", "programs_closed", "dgrams_recv")
+        need = ("blocked_writes", "blocked_opens", "blocked_dgram_sends", "programs_closed", "dgrams_recv",
+                "quiet_finishes", "burst_readers_completed")
         if not all(s.get(k) for k in need) and not run.violations:
             raise vlib.ToolError("programs never blocked a writer / an open / a datagram sender, never closed or never "
                                  "received a datagram: binding too weak: %s" % {k: s.get(k) for k in need})
